@@ -52,6 +52,43 @@ def cold(k, script, log):
     return rx.create(subscribe)
 
 
+def cold_deferred(k, script, log, pending):
+    """the same source, but it notifies only AFTER subscribe has returned (the driver delivers its script later): when it terminates, no
+    scheduler action is running - the hop to the next source starts from an idle trampoline"""
+    import reactivex as rx
+    from reactivex.disposable import Disposable
+
+    def subscribe(observer, scheduler=None):
+        log.append(("sub", k))
+        live = [True]
+        pending.append((k, observer, live))
+
+        def un():
+            if live[0]:
+                live[0] = False
+                log.append(("unsub", k))
+        return Disposable(un)
+    return rx.create(subscribe)
+
+
+def pump(pending, scripts, log):
+    steps = 0
+    while pending and steps < 200:
+        steps += 1
+        k, observer, live = pending.pop(0)
+        for x in scripts[k][0]:
+            if live[0]:
+                observer.on_next(x)
+        if not live[0]:
+            continue
+        if scripts[k][1] == "C":
+            log.append(("term", k, "C"))
+            observer.on_completed()
+        elif scripts[k][1] == "E":
+            log.append(("term", k, "E"))
+            observer.on_error(Boom(f"src{k}"))
+
+
 def expected(op, scripts, n=None):
     """-> (output, subscriptions list of source indices)"""
     out, subs = [], []
@@ -103,7 +140,10 @@ def run(c):
     from reactivex import operators as ops
     log = []
     scripts = [tuple(s) for s in c["scripts"]]
-    srcs = [cold(k, s, log) for k, s in enumerate(scripts)]
+    pending = []
+    mode = c.get("mode")
+    srcs = [cold_deferred(k, s, log, pending) if mode == "deferred" else cold(k, s, log) for k, s in enumerate(scripts)]
+    src_scripts = list(scripts)
     op, n = c["op"], c.get("n")
     if op == "concat":
         obs = rx.concat(*srcs) if c.get("form") != "operator" else srcs[0].pipe(ops.concat(*srcs[1:]))
@@ -122,7 +162,14 @@ def run(c):
     for round_ in range(2):  # the same operator object subscribed twice behaves the same
         del log[:]
         got = []
-        obs.subscribe(lambda v: got.append(("N", v)), lambda e: got.append(("E", str(e))), lambda: got.append(("C",)))
+        kw = {}
+        if mode == "immediate":
+            from reactivex.scheduler import ImmediateScheduler
+            kw = {"scheduler": ImmediateScheduler()}
+        del pending[:]
+        obs.subscribe(lambda v: got.append(("N", v)), lambda e: got.append(("E", str(e))), lambda: got.append(("C",)), **kw)
+        if mode == "deferred":
+            pump(pending, src_scripts, log)
         if got != want:
             return {"what": f"output differs (subscription #{round_ + 1})", "got": got, "expected": want}
         subs = [e[1] for e in log if e[0] == "sub"]
@@ -139,6 +186,19 @@ def run(c):
 
 
 def cases():
+    for c in base_cases():
+        yield c
+    # the same table with sources that terminate after subscribe returned (the hop starts from an idle trampoline), and on the immediate scheduler
+    # (the hop runs inside the schedule() call)
+    for c in base_cases():
+        if c["op"] == "start_with":
+            continue
+        yield dict(c, mode="deferred")
+        if len(c["scripts"]) <= 2:
+            yield dict(c, mode="immediate")
+
+
+def base_cases():
     scr = [([], "C"), ([1], "C"), ([None, 0], "C"), ([1], "E"), ([], "E"), ([2], "N")]
     for a, b in itertools.product(scr, repeat=2):
         for op in ("concat", "catch", "resume"):
